@@ -17,10 +17,14 @@ StoredOk == E.stored = -1 \/ Len(samples') = E.stored      \* -1: not observable
 TRecord == Cur("Record") /\ Record(E.lat, E.err) /\ StoredOk /\ state' = E.sstate
 TTick == Cur("Tick") /\ Tick /\ now' = E.now /\ StoredOk /\ state' = E.sstate
 TQuery == Cur("Query") /\ Query /\ state' = E.st /\ StoredOk /\ state' = E.sstate
+PMatch(m, st, acked, data, code) == m.health = st /\ m.acked = acked /\ m.data = data /\ m.code = code
 TProbe == /\ Cur("Probe") /\ Probe(E.kind)
-          /\ probe'.health = E.st /\ probe'.acked = E.acked /\ probe'.data = E.data /\ probe'.code = E.code
+          /\ PMatch(probe'[1], E.st, E.acked, E.data, E.code)
+TProduce2 == /\ Cur("Produce2") /\ \E k \in {1, 2} : (E.nerr = 0 \/ E.nerr = k) /\ Produce2(k)
+             /\ Len(E.items) = 2
+             /\ \A i \in 1..2 : PMatch(probe'[i], E.items[i].st, E.items[i].acked, E.items[i].data, E.items[i].code)
 Consumed == TLCSet(7, IF TLCGet(7) < l THEN l ELSE TLCGet(7))
-TNext == (TReset \/ TRecord \/ TTick \/ TQuery \/ TProbe) /\ Consumed
+TNext == (TReset \/ TRecord \/ TTick \/ TQuery \/ TProbe \/ TProduce2) /\ Consumed
 TSpec == TInit /\ [][TNext]_tvars
 Reached == PrintT(<<"CONF", ToJson([reached |-> TLCGet(7), total |-> Len(TraceLog)])>>)
 ====
